@@ -135,9 +135,10 @@ Fixpoint trunc_loop (term : nat -> I.type) (fuel j : nat) (acc : I.type)
       else None
   end.
 
+(* the fuel is a parameter everywhere (theorems hold for every fuel); the harness entry passes FUEL *)
+Definition trunc (fuel : nat) (term : nat -> I.type) : option (list (nat * I.type)) :=
+  trunc_loop term fuel 1 (iZ 0) [].
 Definition FUEL : nat := 200000.
-Definition trunc (term : nat -> I.type) : option (list (nat * I.type)) :=
-  trunc_loop term FUEL 1 (iZ 0) [].
 
 Definition i_power_law (s : I.type) (norm : I.type) (k : nat) : I.type :=
   I.div prec (i_pl_term s k) norm.
@@ -167,9 +168,9 @@ Definition check_power_law (s : Q) (cands : list (nat * I.type)) (k : nat) (x : 
 Definition check_cutoff (s kappa : Q) (cands : list (nat * I.type)) (k : nat) (x : Q) : bool :=
   check_any (map (fun c => i_cutoff (iQ s) (iQ kappa) (snd c) k) cands) x.
 
-Definition cands_power_law (s : Q) : option (list (nat * I.type)) := trunc (i_pl_term (iQ s)).
-Definition cands_cutoff (s kappa : Q) : option (list (nat * I.type)) :=
-  trunc (i_co_term (iQ s) (i_cutoff_z (iQ kappa))).
+Definition cands_power_law (fuel : nat) (s : Q) : option (list (nat * I.type)) := trunc fuel (i_pl_term (iQ s)).
+Definition cands_cutoff (fuel : nat) (s kappa : Q) : option (list (nat * I.type)) :=
+  trunc fuel (i_co_term (iQ s) (i_cutoff_z (iQ kappa))).
 
 (* documented parameter ranges, decided exactly on the rationals *)
 Definition Qlt_b (a b : Q) : bool := negb (Qle_bool b a).
@@ -215,7 +216,7 @@ Definition c19_eval (law : Z) (params : list Q) (cases : list (nat * Q)) : list 
            then [0; 0; 0]%Z ++ eval_cases 0 (fun k _ => i_poisson (iQ p0) k) (check_poisson p0) cases
            else [4; 0; 0]%Z
   | 2%Z => if valid_power_law p0 then
-             match cands_power_law p0 with
+             match cands_power_law FUEL p0 with
              | Some ((Khi, N) :: rest) =>
                  [0%Z; Z.of_nat (fst (last rest (Khi, N))); Z.of_nat Khi]
                  ++ eval_cases 1 (fun k => pick_encl (map (fun c => i_power_law (iQ p0) (snd c) k) ((Khi, N) :: rest)))
@@ -224,7 +225,7 @@ Definition c19_eval (law : Z) (params : list Q) (cases : list (nat * Q)) : list 
              end
            else [4; 0; 0]%Z
   | 3%Z => if valid_cutoff p0 p1 then
-             match cands_cutoff p0 p1 with
+             match cands_cutoff FUEL p0 p1 with
              | Some ((Khi, N) :: rest) =>
                  [0%Z; Z.of_nat (fst (last rest (Khi, N))); Z.of_nat Khi]
                  ++ eval_cases 1 (fun k => pick_encl (map (fun c => i_cutoff (iQ p0) (iQ p1) (snd c) k) ((Khi, N) :: rest)))
